@@ -16,12 +16,16 @@ def setup() -> int:
     for p in sorted(os.listdir(os.path.join(core.LEAN, "Props"))):
         if p.endswith(".lean"):
             core.write_audit(p[:-5])
-    r = subprocess.run(["lake", "build"], cwd=core.LEAN)
+    props = sorted(p[:-5] for p in os.listdir(os.path.join(core.LEAN, "Props")) if p.endswith(".lean"))
+    targets = ["DnsVerif"] + [f"driver{p}" for p in props]
+    r = subprocess.run(["lake", "build"] + targets, cwd=core.LEAN)
     if r.returncode != 0:
-        # a failing proof module must not prevent the driver and the other properties from building
-        print("setup: full build reported failures; building the driver alone")
-        r = subprocess.run(["lake", "build", "dnsdriver"], cwd=core.LEAN)
-    return 0 if os.path.exists(core.DRIVER) else 2
+        # a failing proof module must not prevent the drivers and the other properties from building;
+        # each check rebuilds what it needs and reports a broken obligation itself
+        print("setup: full build reported failures; building per property")
+        for p in props:
+            subprocess.run(["lake", "build", f"Props.{p}", f"driver{p}"], cwd=core.LEAN)
+    return 0
 
 
 def main() -> int:
@@ -49,7 +53,7 @@ def main() -> int:
             print("build_ok", b.ok, b.bad)
             if obj.get("op") and hasattr(mod, "impl_of_op"):
                 impl = mod.impl_of_op(obj["op"])
-                model = core.run_driver([obj["op"]])[0] if b.driver_ok else "?"
+                model = core.run_driver(a.prop, [obj["op"]])[0] if b.driver_ok else "?"
                 print("op   :", obj["op"])
                 print("impl :", impl)
                 print("model:", model)
